@@ -4,6 +4,7 @@ import (
 	"encoding/binary"
 	"fmt"
 	"io"
+	"math"
 	"os"
 	"path/filepath"
 
@@ -44,6 +45,17 @@ func Restore(r io.Reader, dstPath string) (int64, error) {
 	if full == nil {
 		return totalRead, fmt.Errorf("snapshot has no database")
 	}
+	// Mirror the checks the sink side makes before it accepts a header: the
+	// DB header must be present, and every declared size must be usable as
+	// an io.CopyN count.
+	if full.DbHeader == nil || full.DbHeader.SizeBytes > math.MaxInt64 {
+		return totalRead, ErrHeaderInvalid
+	}
+	for _, wh := range full.WalHeaders {
+		if wh.SizeBytes > math.MaxInt64 {
+			return totalRead, ErrHeaderInvalid
+		}
+	}
 
 	// Extract DB file. Wrap the source in a CRC32Reader so we can verify
 	// the bytes match the header's CRC32 without a second pass over disk.
@@ -73,9 +85,9 @@ func Restore(r io.Reader, dstPath string) (int64, error) {
 	// Extract and checkpoint any WAL files. Each WAL is verified against
 	// its header CRC32 immediately after read, before any are checkpointed
 	// into the DB, so a corrupt WAL is never applied.
+	var walFiles []string
 	if len(full.WalHeaders) > 0 {
 		dir := filepath.Dir(dstPath)
-		var walFiles []string
 		for i, wh := range full.WalHeaders {
 			walPath := filepath.Join(dir, fmt.Sprintf("restore-wal-%d.tmp", i))
 			wf, err := os.Create(walPath)
@@ -97,6 +109,20 @@ func Restore(r io.Reader, dstPath string) (int64, error) {
 			}
 			walFiles = append(walFiles, walPath)
 		}
+	}
+
+	// The stream must end exactly where the header says it does. Anything
+	// after the last artifact means the header does not describe the data
+	// (the sink side rejects this with ErrUnexpectedData too), so fail before
+	// any WAL is applied to the database.
+	var extra [1]byte
+	if n, err := io.ReadFull(r, extra[:]); n > 0 {
+		return totalRead + int64(n), fmt.Errorf("data after last snapshot artifact: %w", ErrUnexpectedData)
+	} else if err != io.EOF {
+		return totalRead, fmt.Errorf("reading end of snapshot stream: %w", err)
+	}
+
+	if len(walFiles) > 0 {
 		if err := db.ReplayWAL(dstPath, walFiles, false); err != nil {
 			return totalRead, fmt.Errorf("checkpointing WALs: %w", err)
 		}
